@@ -3,7 +3,7 @@
 // (poolmax / poolcap / poolmin parameters), every atomic access, plain protocol read and pthread call is a
 // scheduling point.  Futures live on the heap and are deleted right after the join / result conversion (the
 // documented usage): the shim reports any pthread call on a destroyed mutex / condition variable.
-//   clients=<n> futs=<futures per client> mode=<0 join then read result | 1 result conversion | 2 restart same future | 3 sequential calls after an idle period | 4 restart same future, then result conversion without join>
+//   clients=<n> futs=<futures per client> mode=<0 join then read result | 1 result conversion | 2 restart same future | 3 sequential calls after an idle period | 4 restart same future, then result conversion without join | 5 every start() overload once (22 overloads), client 1 only>
 //   abort=<0|1> sleep=<ms virtual sleep of client 1 between start and join: lets the pool's idle clock advance>
 #include "../sched/sched.h"
 #include <stdio.h>
@@ -25,9 +25,93 @@ static int work(int id)
   return id * 10 + 1;
 }
 
+// ---- mode 5: every start() overload once (Future<void> / Future<int>, plain function / member function, 0..5
+// arguments).  Call f = 40 + overload number; argument i of call f must arrive as f * 100 + i; the function reports
+// f * 10 + 1 only if all of them did (FutureAbs demands that value), through the result or - for Future<void> - a slot.
+static volatile int voidResult[64];
+static int ovl_body(int f, int n, int a1 = 0, int a2 = 0, int a3 = 0, int a4 = 0, int a5 = 0)
+{
+  int a[5] = { a1, a2, a3, a4, a5 }, ok = 1;
+  for(int i = 0; i < n; ++i) if(a[i] != f * 100 + i + 1) ok = 0;
+  ++execCount[f];
+  sched_event("\"op\":\"exec\",\"f\":%d", f);
+  if(workYield) sched_point("work");
+  sched_event("\"op\":\"done\",\"f\":%d", f);
+  return ok ? f * 10 + 1 : -1;
+}
+#define A(f, i) ((f) * 100 + (i))
+static int fi0() { return ovl_body(40, 0); }
+static int fi1(int a) { return ovl_body(41, 1, a); }
+static int fi2(int a, int b) { return ovl_body(42, 2, a, b); }
+static int fi3(int a, int b, int c) { return ovl_body(43, 3, a, b, c); }
+static int fi4(int a, int b, int c, int d) { return ovl_body(44, 4, a, b, c, d); }
+static int fi5(int a, int b, int c, int d, int e) { return ovl_body(45, 5, a, b, c, d, e); }
+static void fv0() { voidResult[46] = ovl_body(46, 0); }
+static void fv1(int a) { voidResult[47] = ovl_body(47, 1, a); }
+static void fv2(int a, int b) { voidResult[48] = ovl_body(48, 2, a, b); }
+static void fv3(int a, int b, int c) { voidResult[49] = ovl_body(49, 3, a, b, c); }
+static void fv4(int a, int b, int c, int d) { voidResult[50] = ovl_body(50, 4, a, b, c, d); }
+static void fv5(int a, int b, int c, int d, int e) { voidResult[51] = ovl_body(51, 5, a, b, c, d, e); }
+struct Obj5
+{
+  int tag;
+  int mi0() { return tag == 7 ? ovl_body(52, 0) : -1; }
+  int mi1(int a) { return tag == 7 ? ovl_body(53, 1, a) : -1; }
+  int mi2(int a, int b) { return tag == 7 ? ovl_body(54, 2, a, b) : -1; }
+  int mi3(int a, int b, int c) { return tag == 7 ? ovl_body(55, 3, a, b, c) : -1; }
+  int mi4(int a, int b, int c, int d) { return tag == 7 ? ovl_body(56, 4, a, b, c, d) : -1; }
+  void mv0() { voidResult[57] = tag == 7 ? ovl_body(57, 0) : -1; }
+  void mv1(int a) { voidResult[58] = tag == 7 ? ovl_body(58, 1, a) : -1; }
+  void mv2(int a, int b) { voidResult[59] = tag == 7 ? ovl_body(59, 2, a, b) : -1; }
+  void mv3(int a, int b, int c) { voidResult[60] = tag == 7 ? ovl_body(60, 3, a, b, c) : -1; }
+  void mv4(int a, int b, int c, int d) { voidResult[61] = tag == 7 ? ovl_body(61, 4, a, b, c, d) : -1; }
+};
+static void ovl_events_start(int f, int c) { sched_event("\"op\":\"start\",\"f\":%d,\"c\":%d", f, c); }
+static void ovl_join_int(Future<int>& fu, int f)
+{
+  sched_event("\"op\":\"started\",\"f\":%d,\"c\":1", f);
+  sched_event("\"op\":\"join\",\"f\":%d", f);
+  int r = fu;
+  sched_event("\"op\":\"joinret\",\"f\":%d,\"r\":%d,\"fin\":%s,\"ab\":%s,\"execs\":%d", f, r, fu.isFinished() ? "true" : "false", fu.isAborted() ? "true" : "false", (int)execCount[f]);
+}
+static void ovl_join_void(Future<void>& fu, int f)
+{
+  sched_event("\"op\":\"started\",\"f\":%d,\"c\":1", f);
+  sched_event("\"op\":\"join\",\"f\":%d", f);
+  fu.join();
+  sched_event("\"op\":\"joinret\",\"f\":%d,\"r\":%d,\"fin\":%s,\"ab\":%s,\"execs\":%d", f, (int)voidResult[f], fu.isFinished() ? "true" : "false", fu.isAborted() ? "true" : "false", (int)execCount[f]);
+}
+static void overload_sweep()
+{
+  Obj5 o; o.tag = 7;
+  { Future<int> f; ovl_events_start(40, 1); f.start(&fi0); ovl_join_int(f, 40); }
+  { Future<int> f; ovl_events_start(41, 1); f.start(&fi1, A(41, 1)); ovl_join_int(f, 41); }
+  { Future<int> f; ovl_events_start(42, 1); f.start(&fi2, A(42, 1), A(42, 2)); ovl_join_int(f, 42); }
+  { Future<int> f; ovl_events_start(43, 1); f.start(&fi3, A(43, 1), A(43, 2), A(43, 3)); ovl_join_int(f, 43); }
+  { Future<int> f; ovl_events_start(44, 1); f.start(&fi4, A(44, 1), A(44, 2), A(44, 3), A(44, 4)); ovl_join_int(f, 44); }
+  { Future<int> f; ovl_events_start(45, 1); f.start(&fi5, A(45, 1), A(45, 2), A(45, 3), A(45, 4), A(45, 5)); ovl_join_int(f, 45); }
+  { Future<void> f; ovl_events_start(46, 1); f.start(&fv0); ovl_join_void(f, 46); }
+  { Future<void> f; ovl_events_start(47, 1); f.start(&fv1, A(47, 1)); ovl_join_void(f, 47); }
+  { Future<void> f; ovl_events_start(48, 1); f.start(&fv2, A(48, 1), A(48, 2)); ovl_join_void(f, 48); }
+  { Future<void> f; ovl_events_start(49, 1); f.start(&fv3, A(49, 1), A(49, 2), A(49, 3)); ovl_join_void(f, 49); }
+  { Future<void> f; ovl_events_start(50, 1); f.start(&fv4, A(50, 1), A(50, 2), A(50, 3), A(50, 4)); ovl_join_void(f, 50); }
+  { Future<void> f; ovl_events_start(51, 1); f.start(&fv5, A(51, 1), A(51, 2), A(51, 3), A(51, 4), A(51, 5)); ovl_join_void(f, 51); }
+  { Future<int> f; ovl_events_start(52, 1); f.start(o, &Obj5::mi0); ovl_join_int(f, 52); }
+  { Future<int> f; ovl_events_start(53, 1); f.start(o, &Obj5::mi1, A(53, 1)); ovl_join_int(f, 53); }
+  { Future<int> f; ovl_events_start(54, 1); f.start(o, &Obj5::mi2, A(54, 1), A(54, 2)); ovl_join_int(f, 54); }
+  { Future<int> f; ovl_events_start(55, 1); f.start(o, &Obj5::mi3, A(55, 1), A(55, 2), A(55, 3)); ovl_join_int(f, 55); }
+  { Future<int> f; ovl_events_start(56, 1); f.start(o, &Obj5::mi4, A(56, 1), A(56, 2), A(56, 3), A(56, 4)); ovl_join_int(f, 56); }
+  { Future<void> f; ovl_events_start(57, 1); f.start(o, &Obj5::mv0); ovl_join_void(f, 57); }
+  { Future<void> f; ovl_events_start(58, 1); f.start(o, &Obj5::mv1, A(58, 1)); ovl_join_void(f, 58); }
+  { Future<void> f; ovl_events_start(59, 1); f.start(o, &Obj5::mv2, A(59, 1), A(59, 2)); ovl_join_void(f, 59); }
+  { Future<void> f; ovl_events_start(60, 1); f.start(o, &Obj5::mv3, A(60, 1), A(60, 2), A(60, 3)); ovl_join_void(f, 60); }
+  { Future<void> f; ovl_events_start(61, 1); f.start(o, &Obj5::mv4, A(61, 1), A(61, 2), A(61, 3), A(61, 4)); ovl_join_void(f, 61); }
+}
+
 static void client(void* arg)
 {
   int c = (int)(long)arg;
+  if(mode == 5) { if(c == 1) overload_sweep(); return; }
   Future<int>* fut[MAXF];
   for(int i = 0; i < nfuts; ++i)
   {
@@ -111,6 +195,11 @@ extern "C" void scenario_setup(void)
 
 extern "C" void scenario_finish(void)
 {
+  if(mode == 5)
+  {
+    for(int f = 40; f <= 61; ++f) if(execCount[f] != 1) sched_fail("overload call %d executed %d times", f, (int)execCount[f]);
+    return;
+  }
   for(int c = 1; c <= nclients; ++c)
     for(int i = 0; i < nfuts; ++i)
       if(execCount[c * 8 + i] != 1) sched_fail("call %d executed %d times", c * 8 + i, (int)execCount[c * 8 + i]);
